@@ -21,6 +21,9 @@ class ExprMixin:
         if self.spec_mode: return
         if z3.is_true(goal): return
         self.vcs.append(VC(name, list(path.pc) + list(self.guards), goal, kind, line, self.fn.key))
+        # assert-then-assume: execution continues only where the operation did not raise
+        if self.guards: path.assume(z3.Implies(z3.And(*self.guards), goal))
+        else: path.assume(goal)
 
     def truthy(self, v):
         if isinstance(v, VBool): return v.t
@@ -29,6 +32,7 @@ class ExprMixin:
         if isinstance(v, VNone): return z3.BoolVal(False)
         if isinstance(v, VRef): return v.t != NULL
         if isinstance(v, VOpt): return z3.And(Opt.is_some(v.t), Opt.v(v.t) != 0)
+        if isinstance(v, VOptR): return z3.And(OptR.is_some(v.t), OptR.v(v.t) != 0)
         if isinstance(v, VList): return v.len != 0
         if isinstance(v, VCList): return z3.BoolVal(len(v.items) > 0)
         if isinstance(v, VTuple): return z3.BoolVal(len(v.items) > 0)
@@ -47,6 +51,9 @@ class ExprMixin:
         if isinstance(v, VOpt):
             self.vc('no-raise/%s-None@%d' % (what, line), path, Opt.is_some(v.t), line=line)
             return Opt.v(v.t), False
+        if isinstance(v, VOptR):
+            self.vc('no-raise/%s-None@%d' % (what, line), path, OptR.is_some(v.t), line=line)
+            return OptR.v(v.t), True
         if isinstance(v, VNone):
             self.vc('no-raise/%s-None@%d' % (what, line), path, z3.BoolVal(False), line=line)
             return fresh('undef', I), False
@@ -213,6 +220,8 @@ class ExprMixin:
             if isinstance(r, VNone): return z3.BoolVal(True)
             if isinstance(r, VRef): return r.t == NULL
             if isinstance(r, VOpt): return Opt.is_none(r.t)
+            if isinstance(r, VOptR): return OptR.is_none(r.t)
+            if isinstance(r, VPy): return Py.is_pnone(r.t)
             return z3.BoolVal(False)
         if isinstance(l, VEnum) and isinstance(r, VEnum): return z3.BoolVal(l == r)
         if isinstance(l, VEnumSym) and isinstance(r, VEnum): l, r = r, l
@@ -225,6 +234,10 @@ class ExprMixin:
         if isinstance(l, VBool) and isinstance(r, VBool): return l.t == r.t
         if isinstance(l, VOpt) or isinstance(r, VOpt):
             if isinstance(l, (VOpt, VInt)) and isinstance(r, (VOpt, VInt)): return self.toopt(l) == self.toopt(r)
+        if isinstance(l, VOptR) or isinstance(r, VOptR):
+            if isinstance(l, (VOptR, VReal, VInt)) and isinstance(r, (VOptR, VReal, VInt)):
+                f = lambda x: x.t if isinstance(x, VOptR) else OptR.some(self.toreal(x))
+                return f(l) == f(r)
         if isinstance(l, (VInt, VBool, VReal)) and isinstance(r, (VInt, VBool, VReal)):
             a, ra = self.num(l, 'eq', p, line); b, rb = self.num(r, 'eq', p, line)
             if ra != rb:
